@@ -342,9 +342,10 @@ class MapV:
 
 class IterV:
     """iterator over a ListV (by reference), optional adaptor stack"""
-    __slots__ = ('lst', 'pos', 'mode', 'adapt', 'end')
+    __slots__ = ('lst', 'pos', 'mode', 'adapt', 'end', 'inner')
 
     def __init__(self, lst, mode, pos=0, adapt=None, end=None):
+        self.inner = None
         self.lst = lst
         self.pos = pos
         self.mode = mode          # 'ref' | 'mut' | 'val'
@@ -676,6 +677,24 @@ class Exec:
         """fork over the given python-int candidates for Int x (plus 'other' which is Unsupported if feasible)"""
         if x.conc:
             return x.v
+        # fast path: the path condition already determines the value (one unsat query instead of one per candidate)
+        if self.dec_i >= len(self.prefix) and self.cur_model is not None:
+            try:
+                k0 = self.cur_model.eval(x.v, model_completion=True).as_long()
+            except Exception:
+                k0 = None
+            if k0 is not None:
+                key = ('det', x.v.get_id(), len(self.pc))
+                r, _ = self._check([x.v != z3.BitVecVal(k0, x.w)])
+                if r == z3.unsat:
+                    if k0 not in candidates:
+                        raise Unsupported(f'{what} outside modelled range')
+                    # record it like a (forced) branch decision so that re-execution stays aligned
+                    self.prefix = self.taken + [k0]
+                    self.dec_i = len(self.prefix)
+                    self.taken.append(k0)
+                    self.add_pc(x.v == z3.BitVecVal(k0, x.w))
+                    return k0
         opts = [(k, x.v == z3.BitVecVal(k, x.w)) for k in candidates]
         opts.append(('other', z3.And(*[x.v != z3.BitVecVal(k, x.w) for k in candidates]) if candidates else True))
         r = self.branch(opts)
@@ -1278,6 +1297,8 @@ class Exec:
 
     def rvalue(self, f, loc, rv, dst=None):
         rv = rv.strip()
+        if rv.startswith('no_retag '):
+            rv = rv[9:]
         c0 = rv[:5]
         if c0 in ('const', 'copy ', 'move '):
             if rv.endswith(')') and ' as ' in rv:
@@ -1516,7 +1537,7 @@ class Exec:
                 k, v = fl.split(': ', 1)
                 vals[i] = self.operand(f, loc, v)
             return self.mk_struct(m.group(1), vals)
-        m = re.match(r'^([\w:<>, \[\];&\']+?)::(\w+)\((.*)\)$', rv)
+        m = re.match(r'^((?:[\w:, \[\];&\']|<.*>)+?)::(\w+)\((.*)\)$', rv)
         if m:
             items = split_top(m.group(3))
             return self.mk_variant(m.group(1), m.group(2), {i: self.operand(f, loc, x) for i, x in enumerate(items)})
@@ -1524,7 +1545,7 @@ class Exec:
         if m:
             items = split_top(m.group(2))
             return Agg(re.sub(r'<.*$', '', m.group(1)).split('::')[-1], {i: self.operand(f, loc, x) for i, x in enumerate(items)})
-        m = re.match(r'^([\w:<>, \[\];&\']+?)::(\w+)$', rv)
+        m = re.match(r'^((?:[\w:, \[\];&\']|<.*>)+?)::(\w+)$', rv)
         if m:
             return self.mk_variant(m.group(1), m.group(2), {})
         m = re.match(r'^(\w+)$', rv)
